@@ -7,6 +7,7 @@ mod c26;
 mod c27;
 mod c29;
 mod c37;
+mod numref;
 
 fn main() {
     let ctx = Ctx::from_args();
